@@ -156,3 +156,42 @@ fn c10_vacuity_twin() {
     clause_utf16::<1, 3, 4>(true, true);
     assert!(false, "vacuity twin: end of harness is reachable");
 }
+
+/// Two code units, the first a CONCRETE high surrogate (0xD83C), the second arbitrary: a valid pair
+/// gives one supplementary character, anything else gives U+FFFD followed by the second unit's own
+/// decoding.
+fn clause_utf16_after_high_surrogate(le: bool, first: u16) {
+    let second: u16 = kani::any();
+    let units = [first, second];
+    let mut src = [0u8; 4];
+    let mut i = 0;
+    while i < 2 {
+        let b = if le { units[i].to_le_bytes() } else { units[i].to_be_bytes() };
+        src[2 * i] = b[0];
+        src[2 * i + 1] = b[1];
+        i += 1;
+    }
+    let mut dst = String::with_capacity(32);
+    dst.push_str("xy");
+    let enc = if le { Encoding::Utf16LE } else { Encoding::Utf16BE };
+    let got = enc.decode(&src, &mut dst);
+    let mut want = [0u8; 8];
+    let n = ru::utf16_to_utf8::<8>(&units, &mut want);
+    assert!(same_bytes(got.as_bytes(), &want[..n]));
+    kani::cover!(second >= 0xDC00 && second <= 0xDFFF, "second unit is a low surrogate");
+    kani::cover!(second == 0x0062, "second unit is an ordinary character");
+    core::mem::forget(dst);
+}
+
+// @verif property=C10,C01 tier=quick timeout=1200 mem=20 bounds="Encoding::Utf16LE.decode on the CONCRETE high surrogate D83C followed by EVERY second code unit (valid pairs, unpaired high surrogate + anything)"
+c10!(c10_utf16le_after_high, 8, clause_utf16_after_high_surrogate(true, 0xD83C));
+// @verif property=C10,C01 tier=quick timeout=1200 mem=20 bounds="Encoding::Utf16BE.decode on the concrete high surrogate D83C followed by every second code unit"
+c10!(c10_utf16be_after_high, 8, clause_utf16_after_high_surrogate(false, 0xD83C));
+// @verif property=C10,C01 tier=quick timeout=1200 mem=20 bounds="Encoding::Utf16LE.decode on the concrete unpaired LOW surrogate DC00 followed by every second code unit"
+c10!(c10_utf16le_after_low, 8, clause_utf16_after_high_surrogate(true, 0xDC00));
+// @verif property=C10,C01 tier=quick timeout=1200 mem=20 bounds="Encoding::Utf16BE.decode on the concrete character U+4E0A followed by every second code unit"
+c10!(c10_utf16be_after_bmp, 8, clause_utf16_after_high_surrogate(false, 0x4E0A));
+
+// (Even CONCRETE invalid UTF-8 inputs -- 'ab E3 81 cd', 'abc E3 81' -- do not get through
+// `core::str::from_utf8` + the lossy loop within 900 s: the validator's word-at-a-time path is keyed
+// on pointer alignment, which is non-deterministic for CBMC. The UTF-8 lossy clause stays outside.)
